@@ -85,3 +85,17 @@ def buffers_equal_truth(prims, truth):
             if not bit_equal(b, tr[name]):
                 return False, name
     return True, None
+
+
+def outside_price_domain(world):
+    """True if a stock-type underlier currently shows a non-positive price (the Euler local-volatility scheme with a large
+    step or a long horizon can produce one; so can a market-data fault): log-moneyness and the Black-Scholes modules are
+    not defined there, which is C18's matter and nobody else's."""
+    for pid, p in world.primaries.items():
+        kind = type(p).__name__
+        if kind in ("CIRRate", "VasicekRate"):
+            continue
+        sp = dict(p.named_buffers()).get("spot")
+        if sp is not None and sp.numel() and not bool((sp > 0).all()):
+            return True
+    return False
